@@ -537,6 +537,7 @@ async fn run(case: &Case) -> Outcome {
             }
         }
     }
+    out.trace = Some(switch.trace_hash());
     for nd in &nodes {
         nd.cancel.cancel();
         nd.task.abort();
